@@ -26,6 +26,8 @@ def shapes(rng, N):
     return ["kappa", "delta", "dmax", "dmaxperm", "sigma", "omega", "omegaseq", "region", "countPos", "countNeg", "countNeut",
             "fplus", "fminus", "fcr", "ncpr", "mnc", "fer", "disorder", "aafrac", "kd", "uversky", "ww", "ppii hilser", "mw", "scd",
             "seq", "len", "sty", "kappaX s000045,s000044 s00004b,s000052", "kappaX s000050,s000045,s000044,s00004b,s000052 -",
+            "kappaX s000045,s000044,s00004b,s000052 -", "kappaX s000041,s000047 s000053,s000054,s000056",
+            "kappaX s000041,s000047,s000053 s000054,s000056", "kappaX s00004b,s000052 s000045,s000044",
             "linNCPR %d" % w, "linFCR %d" % w, "linSigma %d" % w, "linHydro %d" % w, "linComp %d -" % w,
             "linComp %d s000041,s000047;s00004b" % w, "reduce 5 -", "reduce 20 -",
             "cplx WF 20 - %d 1 3" % w, "cplx LC 5 - %d 1 2" % w, "cplx LZW 8 - %d 2 3" % w,
@@ -44,13 +46,13 @@ def hist_case(seqs, calls, kind):
     return Case(lines, {"kind": kind, "nobj": len(seqs)}, nontrivial=True)
 
 
-FIXED = ["EEEEEKKKKKGGGG", "KEGSTYPKRDDEAG", "GGGGGGG", "MKKKKKKKKKKSTY"]
+FIXED = ["EEEEEKKKKKGGGG", "KEGSTYPKRDDEAG", "EEEEDDEEDD", "KEKEK", "GGGGGGG", "MKKKKKKKKKKSTY", "AGSTVKEAGSTVDR"]
 
 
 def cases(rng, tier):
-    nfix = 2 if tier == "quick" else 4
+    nfix = 4 if tier == "quick" else 7
     for s in FIXED[:nfix]:
-        sh = [q for q in shapes(rng, len(s)) if not q.startswith(("linComp", "cplx", "reduce", "ppii", "ww", "mw", "aafrac", "disorder"))][:30]
+        sh = [q for q in shapes(rng, len(s)) if not q.startswith(("linComp", "cplx", "reduce", "ppii", "ww", "mw", "aafrac", "disorder", "countN", "fminus", "sty", "len"))][:32]
         for q1 in sh:
             for q2 in sh:
                 yield hist_case([s], [(0, q1), (0, q2)], "pair")
